@@ -138,6 +138,7 @@ func SymAlias() {
 
 // no violation: Itoa/Atoi round trip on a small range
 func SymItoa() {
+	vFmtFork(true)
 	x := vndInt("x")
 	vAssume(x >= -20 && x < 120)
 	s := strconv.Itoa(x)
